@@ -392,7 +392,10 @@ def _race(case: dict) -> dict:
     v2, o = effect_oracles(spec, run)
     obs.update({k: n for k, n in o.items() if k != "marked_redeliveries"})
     v = oracles.attribute(v + [x for x in v2 if "handled-although-marked" not in x["sig"]], run, "C02")
-    wit = oracles.lost_plan_witness(run) if v else None
+    wit2 = oracles.double_plan_witness(run) if v else None
+    if wit2:
+        v = [viol("C02/stage-planned-twice:zombie-replan-while-first-claimer-still-planning", f"{wit2}; symptoms {[x['sig'] for x in v][:4]}")]
+    wit = oracles.lost_plan_witness(run) if v and not wit2 else None
     if wit:
         # known mechanism (DESIGN 10.3 row 10), seen from the outcome side
         v = [viol("C02/start-lost:plan-commit-lost-optimistic-lock-and-error-swallowed", f"{wit}; symptoms {[x['sig'] for x in v][:4]}")]
